@@ -447,3 +447,111 @@ def run(F, R, tier, cfg):
     consts_rule(F, R)
     effect_rule(F, R)
     ctor_rule(F, R)
+    evict_oldest_rule(F, R)
+    ceil_frames_rule(F, R)
+
+
+SELECT = "anapaya_edge_tun::fragmenting::DefragmenterInner::select_queue"
+
+
+def evict_oldest_rule(F, R):
+    """EVICT-oldest: when no idle slot exists the slot that is reclaimed is the one with the lowest stream_offset (the oldest
+    packet).  Decided on the selection itself: (a) loop form — every assignment of the victim-index local inside the scan sits
+    under a comparison of this queue's `stream_offset` with the running minimum, and the running minimum is updated from the
+    same field under the same guard; or (b) iterator form — `min_by_key(|..| q.stream_offset)` / `min_by(.. stream_offset ..)`.
+    A selection ordered by anything else (a tuple whose first component is the index) reclaims the slot of a packet that is
+    still receiving frames while an older, stalled one keeps its slot."""
+    ps = [p for p in F.all_body_paths("anapaya_edge_tun") if p.endswith("::select_queue")]
+    if not ps:
+        R.anchor_missing(SELECT)
+        return
+    p = ps[0]
+    b = F.body(p)
+    R.fn(p)
+    ok, how = False, "no selection by stream_offset found"
+    # (b) iterator form
+    for c in b.calls:
+        if c.indirect or c.bb not in b.live_blocks():
+            continue
+        if re.search(r"::(min_by_key|min_by)$", c.decl) and len(c.args) == 2:
+            cl = [x[1][1] for x in walk(b.origin(c.args[1])) if x[0] == "agg" and isinstance(x[1], tuple) and len(x[1]) > 1 and "{closure#" in str(x[1][1])]
+            if cl and F.has_body(cl[0]):
+                qb = F.body(cl[0])
+                ro = qb.local_origin(0)
+                if "field:stream_offset" in tokens(ro) and not any(n[0] == "agg" and n[1][0] == "tuple" for n in walk(ro)):
+                    ok, how = True, "min_by_key over stream_offset"
+        if re.search(r"::min$", c.decl) and len(c.args) == 1 and any(t.endswith("::enumerate") for t in tokens(b.origin(c.args[0]))):
+            how = "min() over an enumerated iterator: ordered by index first"
+    # (a) loop form: `if lowest > q.stream_offset { lowest = q.stream_offset; idx = i }`
+    if not ok:
+        for g in sorted(b.live_blocks()):
+            e = FX.bool_edges(b, g)
+            if e is None:
+                continue
+            o = b.origin(b.term(g)[1])
+            while o[0] == "un" and o[1] == "Not":
+                o = o[2]
+            if o[0] != "bin" or o[1] not in ("Gt", "Lt", "Ge", "Le"):
+                continue
+            carried = [any(n[0] in ("phi", "loop") for n in walk(x)) for x in (o[2], o[3])]
+            if carried[0] == carried[1]:
+                continue            # exactly one side is the running minimum (loop-carried) …
+            this_side = o[3] if carried[0] else o[2]
+            if "field:stream_offset" not in tokens(this_side) or "param:3" in tokens(this_side):
+                continue            # … the other is this queue's stream_offset (not the frame's)
+            tt, ff = e
+            body_edge = tt
+            # statements on the taken edge: one copies stream_offset into a loop-carried local, one copies the enumerate index
+            upd_off = upd_idx = False
+            for bb in b.reach([body_edge], avoid=[g]) & set(range(body_edge, body_edge + 3)):
+                for st in b.stmts(bb):
+                    if st[0] == "=" and not st[1][1] and st[2][0] == "use":
+                        tk = tokens(b.origin(st[2][1]))
+                        if "field:stream_offset" in tk:
+                            upd_off = True
+                        if any(t.endswith("::enumerate") for t in tk) and "field:stream_offset" not in tk:
+                            upd_idx = True
+            if upd_off and upd_idx:
+                ok, how = True, "scan keeps (lowest stream_offset, its index) under `lowest > queue.stream_offset`"
+    R.ob("EVICT-oldest", "select_queue: the evicted slot is the one with the lowest stream_offset (%s)" % how, ok, True,
+         {"rule": "EVICT-oldest", "fn": p, "how": how, "holds": ok})
+    if not ok:
+        R.violation("EVICT-oldest", p, "the slot reclaimed under pressure is not selected by lowest stream_offset (%s): a packet still receiving frames is "
+                    "evicted while an older one keeps its slot" % how, F.loc(p))
+
+
+def ceil_frames_rule(F, R):
+    """CEIL-frames: "emitted whenever all its frames arrive": completion compares the number of received frames with
+    `expected_frames`, which must be ceil(final_packet_size / frame_window_size) — `div_ceil(size, w)` or `(size + w - 1) / w`.
+    `size / w + 1` counts one frame too many exactly when the last frame is full, and such a packet is never emitted."""
+    n = 0
+    for p in F.all_body_paths("anapaya_edge_tun"):
+        if "fragmenting::DefragQueue::" not in p or T.is_test_support(p):
+            continue
+        b = F.body(p)
+        for bb in sorted(b.live_blocks()):
+            for st in b.stmts(bb):
+                if st[0] == "=" and st[1][1] and isinstance(st[1][1][-1], list) and st[1][1][-1][0] == "f" and st[1][1][-1][2] == "expected_frames":
+                    o = FX.strip_sites(b._rvalue_origin(st[2], FX.DEPTH, None))
+                    if o[0] == "agg" and o[1][0] == "adt" and o[1][2] == "None":
+                        continue
+                    n += 1
+                    R.fn(p)
+                    v = o[2][0] if (o[0] == "agg" and o[1][0] == "adt" and o[1][2] == "Some" and o[2]) else o
+                    v = PN.strip_casts(v)
+                    ok = False
+                    if v[0] == "call" and v[1].endswith("::div_ceil") and len(v[2]) == 2:
+                        ok = True
+                    elif v[0] == "bin" and v[1].startswith("Div"):
+                        num, den = PN.strip_casts(v[2]), PN.strip_casts(v[3])
+                        if num[0] == "bin" and num[1].startswith("Add"):
+                            for x in (num[2], num[3]):
+                                x = PN.strip_casts(x)
+                                if x[0] == "bin" and x[1].startswith("Sub") and PN.const_eval(x[3]) == 1 and PN.strip_casts(x[2]) == den:
+                                    ok = True
+                    R.ob("CEIL-frames", "%s: expected_frames = ceil(final_packet_size / frame_window_size)" % short(p), ok, True,
+                         {"rule": "CEIL-frames", "fn": p, "value": fmt(v, 160), "holds": ok})
+                    if not ok:
+                        R.violation("CEIL-frames", p, "expected_frames is not the ceiling of size / window (%s): a packet whose last frame is full (or some other "
+                                    "size class) never reaches the completion test" % fmt(v, 120), b.span_of(st[3]).loc)
+    R.floor("CEIL-frames", n, 1, "assignments of Some(..) to DefragQueue.expected_frames")
